@@ -582,10 +582,18 @@ def wl_repo_tests(ctx, rng):
     tests = os.path.join(contracts.repo_root(), 'tests')
     if not os.path.isdir(tests):
         tests = '/repo/tests'
+    # wall-clock must not decide anything: no per-example deadline, no 'too slow' health checks, fixed examples
+    import contextlib
+    import io
+    from hypothesis import HealthCheck, settings
+    settings.register_profile('vmon', deadline=None, suppress_health_check=list(HealthCheck), derandomize=True,
+                              database=None)
     before = sum(ctx.monitors.values())
-    rc = pytest.main(['-q', '-p', 'no:cacheprovider', '--no-header', '-W', 'ignore', '--hypothesis-seed=%d' % ctx.seed,
-                      os.path.join(tests, 'temperature')])
-    ctx.check('repo-tests-pass-under-contracts', int(rc) == 0, rc=int(rc))
+    buf = io.StringIO()
+    with contextlib.redirect_stdout(buf):
+        rc = pytest.main(['-q', '-rf', '-p', 'no:cacheprovider', '--no-header', '-W', 'ignore', '--hypothesis-profile=vmon',
+                          os.path.join(tests, 'temperature')])
+    ctx.check('repo-tests-pass-under-contracts', int(rc) == 0, rc=int(rc), output=buf.getvalue()[-2500:])
     gained = sum(ctx.monitors.values()) - before
     ctx.note('contract_evaluations_during_repo_tests', gained)
     ctx.check('repo-tests-reached-contracts', gained > 0)
